@@ -192,6 +192,15 @@ check("C03", "model_checking",
       "the pure-Python Duffy rule generator is memoised during the run (copied on use).",
       "explicit-state search over the labelling group + exhaustive sweep over motions/scalings, invariant = equivariance")
 
+check("C15", "exploration",
+      "Exhaustive sweep mesh x operator {SPD single layer, SPD identity, 1/2 I + K, complex Helmholtz single layer, blocked real, blocked "
+      "complex, generalized blocked} x right-hand sides A*e_j for every j plus a complex combination x {lu, lu with precomputed factors, "
+      "gmres, cg} x tolerance x restart x maxiter x use_strong_form x return_residuals x return_iteration_count against the dense solve "
+      "of the reference matrix: info, true residual, error bound, result spaces, shape of the returned tuple, residual/iteration bookkeeping.",
+      "DESIGN.md 4/C15 and B.3",
+      "Trusted: numpy dense solve; acceptance constants of B.3.",
+      "exhaustive sweep over solver option tuples against a dense reference solve")
+
 ALL = ["C%02d" % i for i in range(1, 21)]
 
 
